@@ -481,6 +481,10 @@ def gen_inram_case(rng):
   objs = [('m%d' % i, rng.choice(['MAXIMIZE', 'MINIMIZE'])) for i in range(nobj)]
   safety = [('s', rng.choice(['MAXIMIZE', 'MINIMIZE']), float(rng.choice([-1, 0, 1])))] if rng.random() < 0.3 else []
   pool = [rng.choice(GRID[1:-1]) for _ in range(3)] + [rng.choice(GRID)]
+  if rng.random() < 0.35:
+    # near ties: values that differ in float64 but not in float32 (1 + 1e-9 vs 1): "attains the best value" and
+    # "is dominated" are about the values the trials report, not about a coarser rendering of them
+    pool += [v + rng.choice([1e-9, -1e-9, 3e-12]) for v in pool if abs(v) != INF]
   clean = rng.random() < 0.45         # only completed feasible trials with all objectives: the class the theorem covers
   trials = []
   for _ in range(rng.choice([0, 1, 2, 3, 4, 5, 6, 8, 10])):
@@ -537,10 +541,19 @@ def run_inram_case(case):
 
 
 def inram_request(case, stored, filt):
+  # order embedding of THIS case's values into the integers (the model only compares): ranks of the distinct finite
+  # values (thresholds included), +-inf at the ends, NaN -> null
+  vals = sorted(set([float(thr) for _, _, thr in case['safety']] +
+                    [float(v) for t in stored if t['final'] is not None for _, v in t['final'] if v == v and abs(v) != INF]))
+  rank = {v: i - len(vals) // 2 for i, v in enumerate(vals)}
+
+  def e(v):
+    v = float(v)
+    return None if v != v else BIG if v == INF else -BIG if v == -INF else rank[v]
   return {'op': 'getbest', 'filterEligible': filt, 'objs': [[m, g] for m, g in case['objs']],
-          'safety': [[m, g, enc(thr)] for m, g, thr in case['safety']], 'count': case['count'],
+          'safety': [[m, g, e(thr)] for m, g, thr in case['safety']], 'count': case['count'],
           'trials': [{'id': t['id'], 'infeasible': t['infeasible'],
-                      'final': None if t['final'] is None else [[k, enc(v)] for k, v in t['final']]} for t in stored]}
+                      'final': None if t['final'] is None else [[k, e(v)] for k, v in t['final']]} for t in stored]}
 
 
 INRAM_WITNESS = {'objs': [('m0', 'MAXIMIZE'), ('m1', 'MAXIMIZE')], 'safety': [], 'count': None,
